@@ -5,6 +5,8 @@
 //! types), Signature::from_bytes, VerifierSignature::from_ref.  What the calls return is C02's
 //! business.
 
+use std::collections::HashMap;
+use std::sync::Mutex;
 use std::time::Instant;
 
 use model::lms::TreeCache;
@@ -14,6 +16,53 @@ use crate::common::{par_run, Ctx, RefTool, Worker};
 use crate::libcall::{self, VERIFY_ENTRIES};
 use crate::props::mutgen::{self, Case, Opts, Triple};
 use crate::props::shared;
+
+/// Cases exported for the Miri stage: inputs that the native run saw fail fast (before any
+/// Winternitz chain is walked) plus a handful of complete verifications of small signatures.
+#[derive(Default)]
+struct Corpus {
+    per_class: HashMap<String, usize>,
+    slow: usize,
+    lines: Vec<String>,
+}
+
+static CORPUS: Mutex<Option<Corpus>> = Mutex::new(None);
+
+fn corpus_path() -> std::path::PathBuf {
+    let root = std::env::var("VERIF_ROOT").unwrap_or_else(|_| "/verif".to_string());
+    std::path::PathBuf::from(format!("{root}/target/results/C06-miri-corpus.txt"))
+}
+
+fn export(c: &Case, fast_err: bool) {
+    if c.sig.len() > 6000 || c.msg.len() > 300 {
+        return;
+    }
+    let mut g = CORPUS.lock().unwrap();
+    let co = g.get_or_insert_with(Corpus::default);
+    if fast_err {
+        let k = format!("{}|{}", c.class, c.alg.n());
+        let e = co.per_class.entry(k).or_insert(0);
+        if *e >= 12 {
+            return;
+        }
+        *e += 1;
+    } else {
+        // complete verifications are expensive under the interpreter: smallest signatures only
+        if co.slow >= 4 || c.alg.n() != 16 || c.sig.len() > 2400 || c.base.levels.len() != 1 || c.base.levels[0].w != 1 {
+            return;
+        }
+        co.slow += 1;
+    }
+    co.lines.push(format!(
+        "{} {} {} {} {} {}",
+        c.alg.name(),
+        c.class.replace(' ', "_"),
+        if fast_err { "fast" } else { "full" },
+        if c.msg.is_empty() { "-".to_string() } else { model::json::hex(c.msg) },
+        if c.sig.is_empty() { "-".to_string() } else { model::json::hex(c.sig) },
+        if c.pk.is_empty() { "-".to_string() } else { model::json::hex(c.pk) }
+    ));
+}
 
 fn probe(w: &mut Worker, c: Case, nth: &mut u64) {
     *nth += 1;
@@ -35,6 +84,12 @@ fn probe(w: &mut Worker, c: Case, nth: &mut u64) {
         let dt = t0.elapsed().as_micros() as i128;
         r.set_max("max_call_micros", dt);
         r.count(&format!("outcome_{}", out.kind()), 1);
+        if e == libcall::VerifyEntry::Bytes && !crate::common::miri_mode() && cfg!(feature = "hooks") {
+            let fast_err = out.is_err() && t0.elapsed().as_nanos() < 4000;
+            if fast_err || out.is_ok() {
+                export(&c, fast_err);
+            }
+        }
         if let Some(p) = out.panic() {
             r.violation(
                 &format!("C06:panic:{}:{}:{}", p.site(), e.name(), c.class),
@@ -60,7 +115,55 @@ fn probe(w: &mut Worker, c: Case, nth: &mut u64) {
     }
 }
 
+/// Miri stage: replay the exported corpus (this shard's share) through the same probe.
+fn run_miri(ctx: &Ctx) -> Report {
+    let mut rep = Report::new();
+    let text = match std::fs::read_to_string(corpus_path()) {
+        Ok(t) => t,
+        Err(_) => {
+            rep.inconclusive("no corpus exported by the native stage");
+            return rep;
+        }
+    };
+    let budget = std::time::Duration::from_secs(ctx.size(150, 1500) as u64);
+    let t0 = Instant::now();
+    let dummy = Triple { alg: model::Alg::Sha256_128, levels: vec![], seed: vec![], counter: 0, msg: vec![], sig: vec![], pk: vec![], origin: "corpus" };
+    let mut w = Worker { id: 0, report: Report::new(), cache: TreeCache::new() };
+    let mut nth = 0u64;
+    let un = |s: &str| if s == "-" { Some(Vec::new()) } else { model::json::unhex(s) };
+    for (i, line) in text.lines().enumerate() {
+        if !ctx.mine(i) {
+            continue;
+        }
+        if t0.elapsed() > budget {
+            w.report.note("time budget of the interpreter run reached before the end of the corpus share");
+            break;
+        }
+        let f: Vec<&str> = line.split_whitespace().collect();
+        if f.len() != 6 {
+            continue;
+        }
+        let (alg, msg, sig, pk) = match (model::Alg::from_name(f[0]), un(f[3]), un(f[4]), un(f[5])) {
+            (Some(a), Some(m), Some(s), Some(p)) => (a, m, s, p),
+            _ => continue,
+        };
+        let class = format!("miri:{}", f[1]);
+        probe(&mut w, Case { base: &dummy, alg, msg: &msg, sig: &sig, pk: &pk, class: &class, field: f[2] }, &mut nth);
+        w.report.count(&format!("replayed_{}", f[2]), 1);
+    }
+    rep.merge(w.report);
+    rep.rule = "Miri stage: inputs exported by the native run (up to 12 fast-failing inputs per mutation class and hash length, plus complete verifications of the smallest signatures) are replayed through the same five entry points under the interpreter (debug profile, software SHA-2); this shard's share only".into();
+    if rep.counter("replayed_fast") == 0 {
+        rep.inconclusive("the interpreter replayed no input");
+    }
+    rep
+}
+
 pub fn run(ctx: &Ctx) -> Report {
+    if ctx.miri {
+        return run_miri(ctx);
+    }
+    *CORPUS.lock().unwrap() = Some(Corpus::default());
     let mut rng = ctx.rng("c06");
     let tool = RefTool::new(ctx, "c06");
     let mut cache = TreeCache::new();
@@ -93,6 +196,15 @@ pub fn run(ctx: &Ctx) -> Report {
         .into();
     if rep.counter("outcome_ok") == 0 || rep.counter("outcome_err") == 0 {
         rep.inconclusive("did not observe both Ok and Err outcomes");
+    }
+    if let Some(co) = CORPUS.lock().unwrap().take().filter(|_| cfg!(feature = "hooks") && std::env::var("VERIF_BUILD_CONFIG").is_err()) {
+        let mut lines = co.lines;
+        lines.sort();
+        if let Some(d) = corpus_path().parent() {
+            let _ = std::fs::create_dir_all(d);
+        }
+        let _ = std::fs::write(corpus_path(), lines.join("\n") + "\n");
+        rep.count("inputs_exported_for_miri", lines.len() as i128);
     }
     rep.assumptions.push("termination: every call is bounded by the hashing work its parsed lengths imply; the longest observed call is reported as max_call_micros and a global wall-clock watchdog (inconclusive, not a violation) surrounds the run".into());
     shared::add_assumptions(&mut rep);
